@@ -89,17 +89,28 @@ import "github.com/plgd-dev/go-coap/v3/message"
 //
 //@ spec tcpFrameOK(d []byte) bool = len(d) > 0 && d[0] % 16 <= 8 && len(d) >= hdrLen(d) && hdrLen(d) + bodyLen(d) <= 4294967295 && len(d) >= hdrLen(d) + bodyLen(d)
 //
+// Decode parses the FRAME the header declares (RFC 8323 section 3.2: Len is the size of the message) and
+// reports its length as consumed; bytes that follow the frame in the buffer (the next frame of the
+// stream) are not part of the message (D18: they were, before the repair).
+//
 //@ func (*Coder) Decode(data []byte, m *message.Message) (n int, err error)
 //@   requires m != nil && len(data) < 4294967296
 //@   modifies m.Options, m.Options[len(m.Options) : cap(m.Options)], m.Payload, m.Code, m.Token
 //@   ensures [rejects-frame] !tcpFrameOK(data) ==> err != nil
-//@   ensures [n] (err == nil ==> n == len(data)) && (err != nil ==> n == -1)
-//@   ensures [accepts] err == nil ==> tcpFrameOK(data) && exists K int :: {rawStart(data[hdrLen(data) : ], K)} parsedOK(data[hdrLen(data) : ], K) && decodedOpts(m.Options, len(old(m.Options)), data[hdrLen(data) : ], tcpDefs(data[1 + extBytesOf(data[0] / 16)]), K) && m.Payload == ite(consumedBy(data[hdrLen(data) : ], K) < len(data[hdrLen(data) : ]), data[hdrLen(data) : ][consumedBy(data[hdrLen(data) : ], K) : ], old(m.Payload))
-//@   ensures [rejects] err != nil && !errors.Is(err, message.ErrOptionsTooSmall) && tcpFrameOK(data) ==> exists K int :: {rawStart(data[hdrLen(data) : ], K)} prefixOK(data[hdrLen(data) : ], K) && !terminal(data[hdrLen(data) : ], rawStart(data[hdrLen(data) : ], K)) && !rawOK(data[hdrLen(data) : ], K)
-//@   ensures [too-small] errors.Is(err, message.ErrOptionsTooSmall) ==> tcpFrameOK(data) && exists K int :: {rawStart(data[hdrLen(data) : ], K)} prefixOK(data[hdrLen(data) : ], K) && rawOK(data[hdrLen(data) : ], K) && cap(old(m.Options)) == len(old(m.Options)) + nKept(data[hdrLen(data) : ], tcpDefs(data[1 + extBytesOf(data[0] / 16)]), K)
+//@   ensures [n] (err == nil ==> n == hdrLen(data) + bodyLen(data)) && (err != nil ==> n == -1)
+//@   ensures [accepts] err == nil ==> tcpFrameOK(data) && exists K int :: {rawStart(data[hdrLen(data) : hdrLen(data) + bodyLen(data)], K)} parsedOK(data[hdrLen(data) : hdrLen(data) + bodyLen(data)], K) && decodedOpts(m.Options, len(old(m.Options)), data[hdrLen(data) : hdrLen(data) + bodyLen(data)], tcpDefs(data[1 + extBytesOf(data[0] / 16)]), K) && m.Payload == ite(consumedBy(data[hdrLen(data) : hdrLen(data) + bodyLen(data)], K) < len(data[hdrLen(data) : hdrLen(data) + bodyLen(data)]), data[hdrLen(data) : hdrLen(data) + bodyLen(data)][consumedBy(data[hdrLen(data) : hdrLen(data) + bodyLen(data)], K) : ], old(m.Payload))
+//@   ensures [rejects] err != nil && !errors.Is(err, message.ErrOptionsTooSmall) && tcpFrameOK(data) ==> exists K int :: {rawStart(data[hdrLen(data) : hdrLen(data) + bodyLen(data)], K)} prefixOK(data[hdrLen(data) : hdrLen(data) + bodyLen(data)], K) && !terminal(data[hdrLen(data) : hdrLen(data) + bodyLen(data)], rawStart(data[hdrLen(data) : hdrLen(data) + bodyLen(data)], K)) && !rawOK(data[hdrLen(data) : hdrLen(data) + bodyLen(data)], K)
+//@   ensures [too-small] errors.Is(err, message.ErrOptionsTooSmall) ==> tcpFrameOK(data) && exists K int :: {rawStart(data[hdrLen(data) : hdrLen(data) + bodyLen(data)], K)} prefixOK(data[hdrLen(data) : hdrLen(data) + bodyLen(data)], K) && rawOK(data[hdrLen(data) : hdrLen(data) + bodyLen(data)], K) && cap(old(m.Options)) == len(old(m.Options)) + nKept(data[hdrLen(data) : hdrLen(data) + bodyLen(data)], tcpDefs(data[1 + extBytesOf(data[0] / 16)]), K)
 //@   ensures [too-small-full] errors.Is(err, message.ErrOptionsTooSmall) ==> len(m.Options) == cap(m.Options) && cap(m.Options) == cap(old(m.Options))
 //@   ensures [sorted] err == nil && len(old(m.Options)) == 0 ==> sortedOpts(m.Options)
 //@   ensures [fields] err == nil ==> m.Code == data[1 + extBytesOf(data[0] / 16)] && (data[0] % 16 > 0 ==> m.Token == data[2 + extBytesOf(data[0] / 16) : hdrLen(data)]) && (data[0] % 16 == 0 ==> m.Token == nil)
+//@   hide accepts, rejects, too-small
+//   (callers compose with the exact-frame forms below; the general forms above are proved, not handed on)
+//   (the same three clauses once more for a buffer that holds exactly one frame, phrased over "the rest of
+//   the buffer": this is the form the round-trip lemma below composes with)
+//@   ensures [accepts-exact] len(data) == hdrLen(data) + bodyLen(data) ==> (err == nil ==> tcpFrameOK(data) && exists K int :: {rawStart(data[hdrLen(data) : ], K)} parsedOK(data[hdrLen(data) : ], K) && decodedOpts(m.Options, len(old(m.Options)), data[hdrLen(data) : ], tcpDefs(data[1 + extBytesOf(data[0] / 16)]), K) && m.Payload == ite(consumedBy(data[hdrLen(data) : ], K) < len(data[hdrLen(data) : ]), data[hdrLen(data) : ][consumedBy(data[hdrLen(data) : ], K) : ], old(m.Payload)))
+//@   ensures [rejects-exact] len(data) == hdrLen(data) + bodyLen(data) ==> (err != nil && !errors.Is(err, message.ErrOptionsTooSmall) && tcpFrameOK(data) ==> exists K int :: {rawStart(data[hdrLen(data) : ], K)} prefixOK(data[hdrLen(data) : ], K) && !terminal(data[hdrLen(data) : ], rawStart(data[hdrLen(data) : ], K)) && !rawOK(data[hdrLen(data) : ], K))
+//@   ensures [too-small-exact] len(data) == hdrLen(data) + bodyLen(data) ==> (errors.Is(err, message.ErrOptionsTooSmall) ==> tcpFrameOK(data) && exists K int :: {rawStart(data[hdrLen(data) : ], K)} prefixOK(data[hdrLen(data) : ], K) && rawOK(data[hdrLen(data) : ], K) && cap(old(m.Options)) == len(old(m.Options)) + nKept(data[hdrLen(data) : ], tcpDefs(data[1 + extBytesOf(data[0] / 16)]), K))
 //
 // ---- C01: decode(encode(m)) == m for every well-formed message (stream framing) --------------------
 //
@@ -113,6 +124,7 @@ import "github.com/plgd-dev/go-coap/v3/message"
 //
 //@ func VerifDecodeEncoded(data []byte, m message.Message, out *message.Message) (n2 int, e2 error)
 //@   requires wfMsgT(m) && isEncT(data, m)
+//@   requires [exact-frame] len(data) == hdrLen(data) + bodyLen(data)
 //@   requires out != nil && len(out.Options) == 0 && cap(out.Options) >= len(m.Options) && out.Payload == nil
 //@   requires distinctObjects(m.Options, out.Options)
 //@   modifies out.Options, out.Options[0 : cap(out.Options)], out.Payload, out.Code, out.Token
@@ -120,6 +132,8 @@ import "github.com/plgd-dev/go-coap/v3/message"
 //@   ensures [decodes] e2 == nil && n2 == len(data)
 //@   ensures [fields] out.Code == m.Code
 //@   ensures [token] len(out.Token) == len(m.Token) && bytesEq(out.Token, m.Token)
+//@   ensures [payload-len] len(out.Payload) == len(m.Payload)
+//@   ensures [payload-where] len(m.Payload) > 0 ==> out.Payload == data[len(data) - len(m.Payload) : ]
 //@   ensures [payload] len(out.Payload) == len(m.Payload) && bytesEq(out.Payload, m.Payload)
 //@   ensures [opt-count] len(out.Options) == len(m.Options)
 
